@@ -165,7 +165,8 @@ def _make_da(desc, it, v, rng, scale=1.0):
         da = da.assign_coords(height=2.0)
         fds = [it["fpool"][i] for i in v["fd"]]
         if len(fds) >= 2 and fds[0]["kind"] != "multi" and fds[1]["kind"] != "multi":
-            da = da.assign_coords({"area": ((fds[0]["name"], fds[1]["name"]),
+            # (named after its dims: two variables of one Dataset may pair a shared dim with different partners)
+            da = da.assign_coords({f"area_{fds[0]['name']}_{fds[1]['name']}": ((fds[0]["name"], fds[1]["name"]),
                                             np.arange(fds[0]["size"] * fds[1]["size"], dtype=float).reshape(fds[0]["size"], fds[1]["size"]))})
     return da
 
